@@ -564,3 +564,12 @@ _MAC_OLD = "            if prefix not in new_unexplored_prefixes:\n             
 V("silent-mark-all-complete-guarded-remove", "C11", FG, _MAC_OLD, "            try:\n                new_unexplored_prefixes.remove(prefix)\n            except KeyError:\n                raise ValidationError(f\"When marking {prefix} complete, could not find it\") from None\n", expect="silent", props=["C11", "C10"])
 V("c11-mark-all-complete-swallows-unknown", "C11", FG, _MAC_OLD, "            try:\n                new_unexplored_prefixes.remove(prefix)\n            except KeyError:\n                pass\n", rule="FOGPOL")
 V("c11-mark-all-complete-discard", "C11", FG, _MAC_OLD, "            new_unexplored_prefixes.discard(prefix)\n")
+
+# key_starts_with as a loop / as all(map(operator.eq, ..)): right and wrong
+_KSW_OLD = "    else:\n        return all(left == right for left, right in zip(full_key, partial_key))\n"
+V("silent-key-starts-with-loop", "C01", "trie/utils/nodes.py", _KSW_OLD, "    for left, right in zip(full_key, partial_key):\n        if not (left == right):\n            return False\n    return True\n", expect="silent", props=["C01", "C07", "C08", "C12"])
+V("c01-key-starts-with-loop-first-pair-only", "C01", "trie/utils/nodes.py", _KSW_OLD, "    for left, right in zip(full_key, partial_key):\n        if left == right:\n            return True\n    return False\n", expect="inconclusive")
+V("silent-key-starts-with-map-eq", "C01", "trie/utils/nodes.py", _KSW_OLD, "    else:\n        return all(map(operator.eq, full_key, partial_key))\n", expect="silent", props=["C01", "C12"],
+  edits=[("trie/utils/nodes.py", _KSW_OLD, "    else:\n        return all(map(operator.eq, full_key, partial_key))\n"), ("trie/utils/nodes.py", "def key_starts_with(full_key, partial_key):", "import operator\n\n\ndef key_starts_with(full_key, partial_key):")])
+V("c01-key-starts-with-map-ne", "C01", "trie/utils/nodes.py", _KSW_OLD, "", expect="inconclusive",
+  edits=[("trie/utils/nodes.py", _KSW_OLD, "    else:\n        return all(map(operator.ne, full_key, partial_key))\n"), ("trie/utils/nodes.py", "def key_starts_with(full_key, partial_key):", "import operator\n\n\ndef key_starts_with(full_key, partial_key):")])
